@@ -721,7 +721,7 @@ class Analysis:
                 i = env.vars.get(nm.split("::")[-1])
                 if i is not None and i in env.ints:
                     a, b = env.ints[i], self.iv(n[4], env)
-                    if n[2] == "Add" and b is not None and b.hi is not None:
+                    if n[2] in ("Add", "AddAssign") and b is not None and b.hi is not None:
                         env.ints[i] = Val(a.lo + b.lo, None if a.hi is None else a.hi + b.hi, {k2: v + b.hi for k2, v in a.rel.items()})
                     else:
                         env.ints.pop(i, None)
